@@ -432,7 +432,13 @@ def case_infer(case):
     return core.ok(key=case, outcome=len(vs), violations=vs)
 
 
-CASE_FUNCS = {"bfs": case_bfs, "history": case_history, "infer": case_infer}
+def case_tlc_edge(case):
+    from vf import tlc
+
+    return tlc.case_tlc_edge(case)
+
+
+CASE_FUNCS = {"bfs": case_bfs, "history": case_history, "infer": case_infer, "tlc_edge": case_tlc_edge}
 
 
 def run(run: core.Run):
